@@ -61,6 +61,9 @@ type Budget struct{}
 // LuaError is a Lua error in flight.
 type LuaError struct {
 	Val Value
+	// Closing: the error unwinds a coroutine that is being closed (it runs
+	// the pending close handlers and cannot be caught inside the coroutine).
+	Closing bool
 }
 
 func unspecified(format string, a ...any) {
